@@ -113,14 +113,32 @@ def _table(run, prog, eng, fname, kind):
     cases = bad = 0
     table = {}
     fields = FIELDS if kind != "subscribe" else FIELDS[:3]
-    for av in itertools.product(*[dom[f] for f in FIELDS]):
+    # anything else of the two operands the decision consults (an entry's TTL, a flag of the description ...) is a
+    # free dimension: the law must hold for every value of it, in particular for the literals the code compares it with
+    foreign = []
+    for tm in conds:
+        for s_ in subterms(tm):
+            if s_[0] == "attr" and s_[1] in (me, other) and field_of(s_) is None and s_ != ("attr", other, "sd_type") \
+                    and s_ != ("attr", me, "eventgroups") and s_ not in foreign and not (s_[1] == me and prog.lookup_method(SERVICE, s_[2])):
+                foreign.append(s_)
+    if len(foreign) > 2:
+        raise AnalysisError(f"{fi.qual}: decision consults {[show(f) for f in foreign]}, outside the matching abstraction")
+    fdom = []
+    for F in foreign:
+        cs = sorted(c for c in constants_compared(conds, lambda tm, F=F: tm == F) if isinstance(c, int))[:3]
+        fresh = next(v for v in (0x2B, 0x2C, 0x2D, 0x2E) if v not in cs)
+        fdom.append(cs + [fresh])
+    for av, fvals in itertools.product(itertools.product(*[dom[f] for f in FIELDS]), itertools.product(*fdom)):
         a = dict(zip(FIELDS, av))
+        fmap = dict(zip(foreign, fvals))
         for bv in itertools.product(*[dom[f] for f in fields]):
             b = dict(zip(fields, bv))
             for eg in ((egid, 0x0C) if kind == "subscribe" else (None,)):
                 cases += 1
 
-                def leaf(tm, a=a, b=b, eg=eg):
+                def leaf(tm, a=a, b=b, eg=eg, fmap=fmap):
+                    if tm in fmap:
+                        return fmap[tm]
                     fo = field_of(tm)
                     if fo is not None:
                         if kind == "subscribe" and fo == ("b", "minor_version"):
@@ -143,14 +161,17 @@ def _table(run, prog, eng, fname, kind):
                     gv = bool(eval_term(p.retval(), leaf))
                     got = str(gv)
                 want = _oracle(kind, a, b, {"egid": eg, "declared": declared})
-                table[(av, bv, eg)] = gv
+                if gv == want or (av, bv, eg) not in table:
+                    table[(av, bv, eg)] = gv
                 if gv != want:
+                    table[(av, bv, eg)] = gv
                     bad += 1
                     if bad <= 3:
                         diff = [f for f in fields if a[f] != b[f]]
                         run.ob("W1", f"{fi.qual}:case(differs={','.join(diff) or 'none'};wild-self={[f for f in fields if a[f] == WILD[f]]};wild-other={[f for f in fields if b[f] == WILD[f]]})",
                                False, loc(fi),
                                f"self={ {k: hex(v) for k, v in a.items()} } other={ {k: hex(v) for k, v in b.items()} }"
+                               + "".join(f" {show(k)}={v:#x}" for k, v in fmap.items())
                                + (f" eventgroup={eg:#x} declared={sorted(declared)}" if eg is not None else "")
                                + f": {fname} gives {got}, the wildcard law demands {want}")
     run.abstract_cases += cases
